@@ -2,6 +2,7 @@
 import Driver.XmlCodec
 import SpyneModel.SchemaSpec
 import SpyneModel.SchemaAttr
+import SpyneModel.SchemaMethods
 import SpyneModel.Generated.Facts06
 open Lean SpyneModel SpyneModel.Xml SpyneModel.Schema Driver XmlCodec
 
@@ -57,6 +58,19 @@ def schemaJson (S : Schema) : Json :=
                  Json.arr (e.2.particles.map particleJson).toArray])).toArray),
     ("elements", Json.arr (S.elements.map (fun e => Json.arr #[keyJson e.1, keyJson e.2])).toArray),
     ("imports", Json.arr (S.imports.map (fun e => Json.arr #[strJson e.1, strJson e.2])).toArray)]
+
+def methodsOf (j : Json) : Methods :=
+  match j.getObjVal? "methods" with
+  | .ok m =>
+    { elems := (getArr m "elems").toList.map (fun e =>
+        match e with
+        | .arr #[.str n, .str ns, .str tn] => (n.toList, (ns.toList, tn.toList))
+        | _ => ([], ([], []))),
+      noElem := (getArr m "noElem").toList.map (fun e =>
+        match e with
+        | .arr #[.str ns, .str tn] => (ns.toList, tn.toList)
+        | _ => ([], [])) }
+  | .error _ => {}
 
 def prefMapOf (j : Json) : PrefMap :=
   (getArr j "prefixes").toList.map (fun e =>
@@ -137,8 +151,10 @@ def step (j : Json) : Json :=
   match getStr j "op" with
   | "gen" =>
     let A := appOf j
-    let S := gen A
+    let M := methodsOf j
+    let S := (gen A).withMethods M
     Json.mkObj [("schema", schemaJson S), ("compiles", Json.bool S.compiles), ("wf", Json.bool (App.wf A)),
+                ("methodsOk", Json.bool (M.ok (gen A))),
                 ("noClash", Json.bool (App.noClash A)), ("resolvesOk", Json.bool (App.resolvesOk A)),
                 ("sameNs", Json.bool (App.sameNsChains A)), ("set", docsJson (prefMapOf j) S),
                 ("wfparts", Json.arr (A.allClasses.map (fun C => Json.arr #[strJson C.name,
@@ -152,7 +168,7 @@ def step (j : Json) : Json :=
     let S := genA (appAOf j)
     Json.mkObj [("ok", Json.arr ((getArr j "docs").toList.map (fun d => Json.bool (S.valid (nodeOf d)))).toArray)]
   | "valid" =>
-    let S := gen (appOf j)
+    let S := (gen (appOf j)).withMethods (methodsOf j)
     Json.mkObj [("ok", Json.arr ((getArr j "docs").toList.map (fun d => Json.bool (S.valid (nodeOf d)))).toArray)]
   | "lex" =>
     let b := builtinOfName (getStr j "type")
